@@ -28,7 +28,8 @@ META = {
         ' Round 8: MEMO also sees last-key caches, chained stores and fills that ignore the condition of their look-up; a Config object is not rewritten in place.'
         ' Round 9: _UNDEF_* / _ERR_* placeholders are rebuilt from parts of their own kind; a filtered **kwargs dict does not fall back to an import-time MasterConfig default.'
         ' Round 10: a class-level store targets an attribute the class declares or the package reads (`cls._CACHE = {}` beside `TRS.__CACHE` is reported); evicting entries of a memo is not a mutation of shared state.'
-        ' Round 11: _recompile empties the cache on every path (a condition comparing the new pattern with the attribute it has just overwritten never holds); only a reader that branches on _USE_CACHE counts.'),
+        ' Round 11: _recompile empties the cache on every path (a condition comparing the new pattern with the attribute it has just overwritten never holds); only a reader that branches on _USE_CACHE counts.'
+        " Round 12: field reads of an immutable record hand out nothing shared; the counter's reader is whatever _sort_custom refers to."),
     'families': ['ESCAPE', 'GLOBALS', 'PURITY', 'FORWARD', 'DEADPARAM', 'SIB-DEFAULTS'],
 }
 
@@ -312,6 +313,16 @@ def _class_writes(ctx):
         for n in walk_local(fi.node):
             if isinstance(n, ast.Attribute) and n.attr in ('_Tract__uid', '__uid') and isinstance(n.ctx, ast.Load):
                 readers.append(fi.qualname)
+    # (the reader is the sort-key evaluator of the container, whatever it is called and wherever in the
+    # container class it lives: a function that _sort_custom refers to by name)
+    try:
+        sc_ = ctx.repo.func('_TRSTractList._sort_custom')
+        sort_names = {x.id for x in ast.walk(sc_.node) if isinstance(x, ast.Name)} | {
+            x.attr for x in ast.walk(sc_.node) if isinstance(x, ast.Attribute)}
+    except AnalysisError:
+        sort_names = set()
+    readers = [r_ for r_ in readers if not (r_.startswith('_TRSTractList.') and r_.split('.')[-1] in sort_names)
+               or r_ == '_TRSTractList._sort_custom.i_sort_evaluate']
     ctx.check(set(readers) <= {'_TRSTractList._sort_custom.i_sort_evaluate'}, 'GLOBALS',
               "the Tract creation counter is only read by the 'i' sort key",
               detail_bad=f"readers: {sorted(set(readers))}", key="GLOBALS|Tract.__uid|readers")
@@ -424,6 +435,9 @@ def _escape(ctx):
                 n_loads += 1
                 ok = isinstance(p, ast.Subscript) and p.value is st and isinstance(p.ctx, ast.Load)
                 ok = ok or (isinstance(p, ast.UnaryOp) and isinstance(p.op, ast.Not))   # `if not self.__trs_dict`
+                # a field of an (immutable) record: `self.__trs_dict.twp` - hands out the field, not the record
+                ok = ok or (isinstance(p, ast.Attribute) and p.value is st and isinstance(p.ctx, ast.Load)
+                            and p.attr not in ('update', 'pop', 'popitem', 'clear', 'setdefault', '__setitem__', '__delitem__'))
                 # any other test of the value (is None, truthiness in a condition) hands nothing out either
                 ok = ok or isinstance(p, (ast.Compare, ast.BoolOp)) or (isinstance(p, (ast.If, ast.While, ast.IfExp)) and p.test is st)
                 f = p
